@@ -38,7 +38,7 @@ func init() {
 				}
 				return 20_000
 			}, Run: c16Case, CaseCPU: 120,
-				Min: map[string]int64{"graphics": 4000, "relation_offset": 4000, "relation_scale": 4000, "relation_colours": 4000, "relation_drawop": 4000, "relation_src_background": 3000, "sentinel_pixels": 100000, "rgba_images": 1000, "alpha_images": 1000,
+				Min: map[string]int64{"graphics": 4000, "relation_offset": 4000, "relation_scale": 4000, "relation_colours": 4000, "relation_drawop": 4000, "relation_src_background": 3000, "lod_ranges": 3000, "one_renderer_for_all_renderings": 3000, "rasterizer_from_NewRasterizer": 3000, "sentinel_pixels": 100000, "rgba_images": 1000, "alpha_images": 1000,
 					"sizes_above_512": 50, "gradient_paths": 2000, "skipped_first_path": 500, "nontrivial_renderings": 3000}},
 		},
 	})
@@ -79,6 +79,23 @@ func c16Gen(c *run.Ctx, r *run.Rng) *c16Graphic {
 	for p := 0; p < nPaths; p++ {
 		sel := uint8(r.Intn(64))
 		adj := uint8(r.Intn(7))
+		if r.Chance(1, 4) {
+			// a level-of-detail range in pixel heights, around the heights the case may render at
+			lo, hi := float32(r.Range(0, 120)), float32(r.Range(0, 120))
+			switch r.Intn(4) {
+			case 0:
+				lo = 0
+			case 1:
+				hi = float32(math.Inf(1))
+			case 2:
+				lo, hi = float32(r.Pick(0, 255, 511, 512, 513)), float32(r.Pick(256, 512, 513, 514, 601))
+			}
+			if lo > hi {
+				lo, hi = hi, lo
+			}
+			c.Count("lod_ranges", 1)
+			add(rec.Op{K: rec.KSetLOD, F: [6]float32{lo, hi}})
+		}
 		add(rec.Op{K: rec.KSetCSel, Sel: sel})
 		switch {
 		case p == 0 && skipFirst:
@@ -179,9 +196,32 @@ func fillPattern(img draw.Image, seed uint64) {
 }
 
 // c16Render renders ops (already scaled) into dst at rect.
+//
+// How the objects are obtained is part of the configuration of a case
+// (c16Objs, set by c16Case; a worker process runs one case at a time): the
+// Renderer is a fresh one per rendering or one value reused for every rendering
+// of the case, and the rasterizer is the literal &vec.Rasterizer{...} (inner
+// size 0x0 until the first path) or vec.NewRasterizer(dst) (inner size = the
+// whole destination image, which differs from the target rectangle whenever
+// the rectangle lies inside a larger image).
+var c16Objs struct {
+	reuse *render.Renderer
+	newRz bool
+}
+
 func c16Render(dst draw.Image, rect image.Rectangle, op draw.Op, vb ivg.ViewBox, pal [64]color.RGBA, ops []rec.Op, only func(path int) bool) {
-	var z render.Renderer
-	z.SetRasterizer(&vec.Rasterizer{Dst: dst, DrawOp: op}, rect)
+	zp := c16Objs.reuse
+	if zp == nil {
+		zp = new(render.Renderer)
+	}
+	z := zp
+	if c16Objs.newRz {
+		vz := vec.NewRasterizer(dst)
+		vz.DrawOp = op
+		z.SetRasterizer(vz, rect)
+	} else {
+		z.SetRasterizer(&vec.Rasterizer{Dst: dst, DrawOp: op}, rect)
+	}
 	z.Reset(vb, pal)
 	path := -1
 	skipping := false
@@ -197,7 +237,7 @@ func c16Render(dst draw.Image, rect image.Rectangle, op draw.Op, vb ivg.ViewBox,
 			}
 			continue
 		}
-		rec.Apply(&z, o)
+		rec.Apply(z, o)
 	}
 }
 
@@ -309,6 +349,14 @@ func c16Case(c *run.Ctx, idx uint64) {
 		op = draw.Over
 	}
 	bg := r.U64()
+	c16Objs.reuse, c16Objs.newRz = nil, r.Bool()
+	if r.Bool() {
+		c16Objs.reuse = new(render.Renderer)
+		c.Count("one_renderer_for_all_renderings", 1)
+	}
+	if c16Objs.newRz {
+		c.Count("rasterizer_from_NewRasterizer", 1)
+	}
 	size := image.Pt(w, h)
 	own := image.Rectangle{Max: size}
 	c.Count("graphics", 1)
